@@ -2,6 +2,8 @@ import QV.Shared.Parse
 import QV.Shared.Lex
 import QV.C01.Lemmas
 import QV.C01.LemmasParse
+import QV.C01.ErrorModel
+import QV.C01.Budget
 /-!
 C01 — parsing never panics or aborts on any input text.
 
@@ -287,5 +289,62 @@ theorem signedInteger_exact (neg : Bool) (m : Nat) (z : Int) :
       (z = (if neg then -(m : Int) else (m : Int)) ∧ -9223372036854775808 ≤ z ∧ z ≤ 9223372036854775807) := by
   unfold signedInteger
   cases neg <;> simp <;> constructor <;> intro h <;> (try split at h) <;> (try split) <;> omega
+
+/-! ## the depth budget is irrelevant above the number of tokens
+
+For users of the parser model (C02/C04): any two budgets larger than the number of tokens give the same
+outcome, so `parseProgram ts` can be computed at any convenient sufficient budget. -/
+
+/-- `parse_instructions`: the same outcome at every budget above the number of tokens -/
+theorem parseProgramAt_budget_irrelevant (d d' : Nat) (ts : List Token) (h : ts.length < d)
+    (h' : ts.length < d') : parseProgramAt d ts = parseProgramAt d' ts := by
+  unfold parseProgramAt
+  rw [(agree_parseInstructionsAt d d' (ts.length + 1) (by omega) (by omega)).eq ts (by omega)]
+
+/-- `parseProgram` is `parseProgramAt` at any sufficient budget -/
+theorem parseProgram_eq_at (d : Nat) (ts : List Token) (h : ts.length < d) :
+    parseProgram ts = parseProgramAt d ts :=
+  parseProgramAt_budget_irrelevant (budget ts) d ts (by simp [budget]) h
+
+/-- `parse_expression`: the same outcome at every budget above the number of tokens -/
+theorem parseExpression_eq_at (d : Nat) (ts : List Token) (h : ts.length < d) :
+    parseExpression ts = parseExpressionAt d ts :=
+  parseExpressionAt_budget_irrelevant (budget ts) d ts (by simp [budget]) h
+
+/-- `parse_instruction`: the same outcome at every budget above the number of tokens -/
+theorem parseInstruction_eq_at (d : Nat) (ts : List Token) (h : ts.length < d) :
+    parseInstruction ts = parseInstructionAt d ts :=
+  parseInstructionAt_budget_irrelevant (budget ts) d ts (by simp [budget]) h
+
+/-- use: the outcome at a huge budget is read off at a small sufficient one -/
+example : (parseProgramAt 1000000 (nested 3)).isOk = true := by
+  rw [← parseProgramAt_budget_irrelevant 12 1000000 (nested 3) (by decide) (by decide)]; decide
+
+/-! ## the error-construction path that touches the input text (parser/error/input.rs) -/
+
+/-- the lex-error snippet as the code builds it never slices, hence never panics — for every position in
+every text (the rest of the error path — Display, Debug, causes — is exercised by the harness only) -/
+theorem snippet_never_crashes (before after : List Char) : ErrorModel.snippet before after ≠ .crash := by
+  simp only [ErrorModel.snippet]; split <;> simp
+
+/-- slicing at a byte offset is safe exactly when the text is pure ASCII up to there: on ASCII text
+`&s[..n]` with `n ≤ len` is a value -/
+theorem sliceTo_ascii (s : List Char) (h : ∀ c ∈ s, c.toNat < 0x80) :
+    ∀ n, n ≤ s.length → ErrorModel.sliceTo s n ≠ .crash := by
+  induction s with
+  | nil => intro n hn; simp at hn; subst hn; simp [ErrorModel.sliceTo]
+  | cons c cs ih =>
+    intro n hn
+    cases n with
+    | zero => simp [ErrorModel.sliceTo]
+    | succ n =>
+      have hc : ErrorModel.utf8Len c = 1 := by simp [ErrorModel.utf8Len, h c (by simp)]
+      have := ih (fun c hc' => h c (by simp [hc'])) n (by simpa using hn)
+      simp only [ErrorModel.sliceTo, hc]
+      cases hh : ErrorModel.sliceTo cs n <;> simp_all
+
+/-- the seeded variant (`&s[..100]`) panics on the witness: 99 ASCII bytes, then `é`, lex error at `é` -/
+theorem snippetCapped_counterexample :
+    ErrorModel.snippetCapped (List.replicate 99 'a') ['é'] = .crash := by decide
 
 end QV.C01
